@@ -108,9 +108,9 @@ func (e event) gallina() string {
 		case px.Float:
 			return "EAdd (DFloat " + lib.GZ(int64(math.Float64bits(v.Float()))) + ")"
 		case px.StringValue:
-			return "EAdd (DStr " + lib.GStr(v.String()) + ")"
+			return "EAdd (DStr " + gStr(v.String()) + ")"
 		case *types.Binary:
-			return "EAdd (DBin " + lib.GStr(v.SerializationString()) + ")"
+			return "EAdd (DBin " + gStr(v.SerializationString()) + ")"
 		}
 		return "EAdd (DArr []) (* not Data: " + strings.ReplaceAll(fmt.Sprintf("%T", e.V), "*", "") + " *)"
 	case "ref":
